@@ -169,7 +169,7 @@ contract(PR + "Parser._build_examples", props=["C04", "C05", "C06"], params={"se
 shape("ScenarioContainer", background="opt:ref:Background")
 # Step.step_type: see contracts/shapes.py
 contract(PR + "Parser._select_last_background_step_type", props=["C05", "C04"], params={"self": "ref:Parser"},
-         self_classes=["Parser"], result="any",
+         self_classes=["Parser"], result="opt:str",
          modifies=["*.status", "*.hook_failed", "*.duration", "*.exception", "*.exc_traceback", "*.error_message", "*.captured",
                    "*._inherited_steps"],
          ensures={"nothing-without-a-background": "implies(is_none(self.scenario_container) or "
@@ -184,14 +184,69 @@ contract(PR + "Parser._select_last_background_step_type", props=["C05", "C04"], 
          doc="never raises (no `raises`): a Background without steps yields None, so And/But as first step is reported as "
              "ParserError by parse_step, not as IndexError")
 
-_NOTE = ["the line-oriented state machine (Parser.action, action_* functions other than the two below), keyword tables of all "
-         "languages, table cell splitting and doc-string de-indentation are string code: bounded stand-in only",
-         "parse_step and the taggable-statement detection are abstracted (trusted) inside action_scenario"]
+# -- parse_step: the longest matching keyword alias over all step types wins ---------------------------------------------
+TYPES5 = ("given", "when", "then", "and", "but")
+macro("kwlist", ["p", "t"], "as_list(dict_value(p.keywords, t), 'str')")
+macro("kw_matches", ["line", "a"], "(line.startswith(a) or line.lower().startswith(a.lower()))")
+macro("t_index", ["t"], "ite(t == 'given', 0, ite(t == 'when', 1, ite(t == 'then', 2, ite(t == 'and', 3, 4))))")
+shape("Parser", keywords="dict:seq:str")
+contract("new:model.Step", trusted=True, pos_params=["filename", "line", "keyword", "step_type", "name"], fresh_result="Step",
+         ensures={"stores": "result.keyword == keyword and result.step_type == step_type and result.name == name"},
+         doc="model.Step(filename, line, keyword, step_type, name) stores its arguments (A: constructor)")
+shape("Step", keyword="any")
+contract("abs:Parser._select_last_background_step_type", trusted=True, params={"self": "ref:Parser"}, pos_params=["self"], pure=True,
+         result="opt:str", doc="call-site view (proved above: never raises)")
+_SCANNED = " and ".join(
+    "implies(t_index('%(t)s') < t_index(step_type), forall(lambda k: implies(0 <= k < len(kwlist(self, '%(t)s')) and "
+    "kw_matches(line, kwlist(self, '%(t)s')[k]), not is_none(selected) and "
+    "len(kwlist(self, '%(t)s')[k]) <= len(as_str(as_tuple(selected, 'any')[1])))))" % {"t": t} for t in TYPES5)
+contract(PR + "Parser.parse_step", props=["C04"], params={"self": "ref:Parser", "line": "str"}, self_classes=["Parser"],
+         callsites={"model.Step": "new:model.Step", "ParserError": "new:ParserError",
+                    "self._select_last_background_step_type": "abs:Parser._select_last_background_step_type"},
+         locals={"selected": "opt:tuple:any", "kw": "str", "step_type": "str"},
+         requires={"keyword-table-has-the-five-step-types": " and ".join("has_key(self.keywords, '%s')" % t for t in TYPES5)},
+         modifies=["self.last_step_type"],
+         raises=[Raises("ParserError", when=None, label="and-but-without-predecessor",
+                        ensures={"reported-at-the-current-line": "exc.line == self.line"})],
+         loops=[None,
+                Loop(invariant={
+                    "aliases-of-earlier-step-types-are-not-longer-than-the-selected-one": _SCANNED,
+                    "aliases-of-this-step-type-so-far-are-not-longer-than-the-selected-one":
+                        "forall(lambda k: implies(0 <= k < _i and kw_matches(line, _seq[k]), not is_none(selected) and "
+                        "len(_seq[k]) <= len(as_str(as_tuple(selected, 'any')[1]))))",
+                    "nothing-is-selected-unless-some-scanned-alias-matches":
+                        "implies(" + " and ".join(
+                            "implies(t_index('%(t)s') < t_index(step_type), forall(lambda k: implies(0 <= k < len(kwlist(self, '%(t)s')), "
+                            "not kw_matches(line, kwlist(self, '%(t)s')[k]))))" % {"t": t} for t in TYPES5) +
+                        " and forall(lambda k: implies(0 <= k < _i, not kw_matches(line, _seq[k]))), is_none(selected))",
+                    "the-selected-alias-matches": "implies(not is_none(selected), has_kind(as_tuple(selected, 'any')[1], 'str') and "
+                                                  "has_kind(as_tuple(selected, 'any')[0], 'str') and "
+                                                  "len(as_tuple(selected, 'any')) == 3 and "
+                                                  "kw_matches(line, as_str(as_tuple(selected, 'any')[1])))",
+                    "same": "_seq is dict_value(self.keywords, step_type)"})],
+         ensures={"the-step-keyword-is-a-longest-matching-alias-over-all-step-types":
+                  "implies(not is_none(result), exists_val(lambda w: has_kind(w, 'str') and kw_matches(line, as_str(w)) and "
+                  "as_ref(result, 'Step').keyword == as_str(w).rstrip() and as_ref(result, 'Step').name == line[len(as_str(w)):].strip() and "
+                  + " and ".join("forall(lambda k: implies(0 <= k < len(kwlist(self, '%(t)s')) and kw_matches(line, kwlist(self, '%(t)s')[k]), "
+                                 "len(kwlist(self, '%(t)s')[k]) <= len(as_str(w))))" % {"t": t} for t in TYPES5) + "))",
+                  "no-matching-alias-no-step":
+                  "implies(%s, result is None)" % " and ".join(
+                      "forall(lambda k: implies(0 <= k < len(kwlist(self, '%s')), not kw_matches(line, kwlist(self, '%s')[k])))" % (t, t)
+                      for t in TYPES5)})
+
+_NOTE = ["the line-oriented state machine (Parser.action, action_* functions other than the two below), the content of the keyword "
+         "tables of all languages, table cell splitting and doc-string de-indentation are string code: bounded stand-in only",
+         "inside action_scenario, parse_step and the taggable-statement detection are seen through call-site views (parse_step's "
+         "own body is proved: longest alias over all step types; the detection is trusted)",
+         "startswith / lower / rstrip / slicing are uninterpreted functions of their arguments (A-str)"]
 prop("C04", level="other", bounded=[],
      explanation="proved for the parser's small deciding pieces: a doc-string ends exactly at a line starting with the quotes that "
                  "opened it and every other line is collected; the first step of every scenario / outline is parsed without a "
                  "predecessor step type (And/But never inherit across scenarios); parse_tags yields one tag per '@' word in order "
-                 "up to a comment. Everything else (keywords of all languages, line numbers, cells, descriptions) is bounded: an "
+                 "up to a comment; parse_step selects a longest matching alias over the aliases of *all* five step types (not the "
+                 "first type that matches) and returns no step when none matches; every statement builder (_build_feature / rule / "
+                 "scenario / outline / examples) hands the pending tag list to the new statement and leaves a new empty list (no tag "
+                 "leaks to the next statement, no list shared), and moves the parser's current statement. Everything else (keywords of all languages, line numbers, cells, descriptions) is bounded: an "
                  "independent Gherkin writer with line-number oracle over all languages and keyword aliases",
      technique="contract-based deductive verification (own VC generator over the real ASTs, z3/cvc5) of three parser functions; "
                "bounded run-time contract stand-in (independent Gherkin writer) for the rest",
@@ -200,7 +255,10 @@ prop("C05", level="other", bounded=[],
      explanation="proved: parse_tags lets only ParserError escape and its line number is usable (never 0); errors raised while a "
                  "scenario header/description is processed carry the current line; the failure-oracle helpers always return an "
                  "explanation and never raise themselves (no AttributeError on a missing feature/rule); And/But as first step of a "
-                 "scenario cannot borrow a predecessor from an earlier scenario. Bounded: every other path by which a malformed "
+                 "scenario cannot borrow a predecessor from an earlier scenario; _select_last_background_step_type never raises "
+                 "(a Background without steps gives None, so parse_step reports ParserError at the current line); after a Rule line "
+                 "the current statement is the rule and _build_examples raises ParserError at the current line exactly when the "
+                 "current statement is not an outline. Bounded: every other path by which a malformed "
                  "text could raise something else than ParserError (line soups, fault injection at every position, all entry points)",
      technique="contract-based deductive verification (own VC generator over the real ASTs, z3/cvc5) of parse_tags, action_scenario "
                "and the failure oracle helpers; bounded fault-injection stand-in for the state machine",
